@@ -606,3 +606,69 @@ Theorem events_dont_interfere_thm : forall es,
 Proof. intros es. apply strip_thm. Qed.
 
 End Trace2.
+
+(* ---------------------------------------------------------------- requests are written in issue order *)
+Lemma ss_snoc : forall l n, StronglySorted lt l -> Forall (fun r => r < n) l -> StronglySorted lt (l ++ [n]).
+Proof.
+  induction l; cbn; intros n H F; [repeat constructor|].
+  inversion H; subst. inversion F; subst. constructor; [auto|].
+  apply Forall_app. split; [assumption|repeat constructor; assumption].
+Qed.
+
+Lemma ss_app_l : forall (a b : list nat), StronglySorted lt (a ++ b) -> StronglySorted lt a.
+Proof.
+  induction a; cbn; intros b H; [constructor|]. inversion H; subst. constructor; [eauto|].
+  apply Forall_app in H3. tauto.
+Qed.
+
+Lemma ss_remove : forall r (a l : list nat), StronglySorted lt (a ++ l) -> StronglySorted lt (a ++ remove_rid r l).
+Proof.
+  induction a; cbn; intros l H.
+  - induction l; cbn; [constructor|]. inversion H; subst. destruct (Nat.eqb a r); [assumption|].
+    constructor; [auto|]. rewrite Forall_forall in *. intros x Hx. apply H3. eapply remove_rid_incl; eauto.
+  - inversion H; subst. constructor; [auto|]. rewrite Forall_forall in *. intros x Hx. apply H3.
+    apply in_app_iff in Hx. apply in_app_iff. destruct Hx; [left; assumption|right; eapply remove_rid_incl; eauto].
+Qed.
+
+Section Order.
+Variable cap : nat.
+Variable T30 : N.
+Hypothesis cap_pos : 0 < cap.
+Hypothesis T30_pos : (0 < T30)%N.
+
+Notation step := (step cap T30).
+
+Definition P_ord (es : list event) (s : st) (os : list output) : Prop :=
+  StronglySorted lt (writes os ++ waiters s) /\ Forall (fun r => r < next s) (writes os ++ waiters s).
+
+Lemma ord_step : forall es s os e, Inv cap T30 s -> P_ord es s os ->
+    P_ord (es ++ [e]) (fst (step s e)) (os ++ snd (step s e)).
+Proof.
+  intros es s os e I [H1 H2]. unfold P_ord.
+  assert (Hpre : StronglySorted lt (writes os) /\ Forall (fun r => r < next s) (writes os)).
+  { split; [eapply ss_app_l; exact H1|]. apply Forall_app in H2. tauto. }
+  assert (Hmono : forall l, Forall (fun r => r < next s) l -> Forall (fun r => r < S (next s)) l).
+  { intros l F. eapply Forall_impl; [|exact F]. cbn. intros; lia. }
+  step_split cap T30 s e; simp_proj; rewrite ?map_id; try (split; assumption); try exact Hpre.
+  - (* issue, written *)
+    apply andb_prop in Ec. destruct Ec as [_ Ec]. destruct (waiters s); [|discriminate]. rewrite app_nil_r in *.
+    destruct Hpre as [P1 P2].
+    split; [apply ss_snoc; assumption|]. apply Forall_app. split; [auto|repeat constructor].
+  - (* issue, queued *)
+    rewrite app_assoc. split; [apply ss_snoc; assumption|]. apply Forall_app. split; [auto|repeat constructor].
+  - split; [assumption|auto].
+  - (* data ok *) rewrite <- app_assoc, firstn_skipn. split; assumption.
+  - (* cancel waiter *) split; [apply ss_remove; assumption|].
+    apply Forall_app in H2. destruct H2 as [F1 F2]. apply Forall_app. split; [assumption|].
+    rewrite Forall_forall in *. intros x Hx. apply F2. eapply remove_rid_incl; eauto.
+Qed.
+
+Theorem issue_order_thm : forall es, StronglySorted lt (writes (trace cap T30 es)).
+Proof.
+  intros es.
+  assert (P_ord es (final cap T30 es) (trace cap T30 es)).
+  { apply (reach_ind cap T30 cap_pos T30_pos P_ord); [split; constructor|apply ord_step]. }
+  destruct H as [H _]. eapply ss_app_l. exact H.
+Qed.
+
+End Order.
